@@ -622,7 +622,9 @@ def transform_fn(u, fnkey, text, em, meta, is_trait_impl=False, nested=False, st
     # apply inserts in order of position, building emitted lines with labels
     segs = []
     pos = 0
-    order = sorted(inserts, key=lambda x: (x[1], 0 if x[0] == "replace" else 1))
+    # at equal position an insert (contract lines) goes BEFORE a replace (a stub's body): otherwise the replace moves
+    # `pos` past the body and the insert resets it, emitting the original body a second time
+    order = sorted(inserts, key=lambda x: (x[1], 1 if x[0] == "replace" else 0))
     for ins in order:
         if ins[0] == "replace":
             _, s, e, newt = ins
